@@ -2386,6 +2386,8 @@ impl<'c, 's:'c, 'r, 'm:'c> SpeechRulesWithContext<'c, 's,'m> {
             }
             if pattern.is_match(&self.context_stack.base, mathml)
                     .chain_err(|| error_string(pattern, mathml) )? {
+                #[cfg(mathcat_verif)]
+                crate::verif::note_rule(&pattern.file_name, &pattern.pattern_name, &pattern.tag_name);
                 if !pattern.match_uses_var_defs && pattern.var_defs.len() > 0 { // don't push them on twice
                     self.context_stack.push(pattern.var_defs.clone(), mathml)?;
                 }
